@@ -52,14 +52,18 @@ def _gel(r) -> Any:
     else:
         nodes = [{"id": i, "label": "L"} for i in ids]
     pairs = set()
+    allow_dup = r.chance(0.2)  # two relations on one pair: accepted by the writer, collapsed per pair by design
+    dup = [False]
     edges_l = []
     for _ in range(r.randint(0, 5)):
         if len(ids) < 1:
             break
         a, b = r.choice(ids), r.choice(ids)
         up = tuple(sorted((a, b)))
-        if up in pairs:
+        if up in pairs and not allow_dup:
             continue
+        if up in pairs:
+            dup[0] = True
         pairs.add(up)
         w = r.weighted([(round(r.uniform(-1, 1), 7), 8), (float("nan"), 1), (float("inf"), 1), (float("-inf"), 1), (2.5, 1), (-7.0, 1), (0.1234567891, 2), (1e-9, 1)])
         rec = {"src": a, "dst": b, "rel": r.choice(["coact", "concept"]), "weight": w, "updated_at": r.choice([None, "2023-01-01T00:00:00Z"]),
@@ -80,6 +84,8 @@ def _gel(r) -> Any:
     g = {"nodes": nodes, "edges": edges}
     if r.chance(0.8):
         g["meta"] = meta
+    if dup[0]:
+        g["_dup_pairs"] = True
     return g
 
 
@@ -215,6 +221,9 @@ def execute(p: Dict[str, Any]) -> Dict[str, Any]:
                         break
                     if js.get("schema_version") != "v1":
                         bad("schema-marker-missing", "op#%d: schema_version=%r" % (oi, js.get("schema_version")))
+                    gj = js.get("gel") or {}
+                    if isinstance(gj.get("edges"), dict) and (gj.get("meta") or {}).get("edges_count") != len(gj["edges"]):
+                        bad("edges-count-inconsistent", "op#%d: body declares %r edges and holds %d" % (oi, (gj.get("meta") or {}).get("edges_count"), len(gj["edges"])))
                     written[name] = {"op": op, "body": body}
                     mp = path + ".meta"
                     if k == "write" and os.path.exists(mp):
@@ -257,7 +266,7 @@ def execute(p: Dict[str, Any]) -> Dict[str, Any]:
                 got_e = {kk: {"src": str(v.get("src")), "dst": str(v.get("dst")), "rel": str(v.get("rel")), "weight": v.get("weight")} for kk, v in (g.get("edges") or {}).items()}
                 if want_e:
                     nontrivial = True
-                if got_e != want_e:
+                if got_e != want_e and not (isinstance(src["gel"], dict) and src["gel"].get("_dup_pairs")):
                     dk = [kk for kk in sorted(set(got_e) | set(want_e)) if got_e.get(kk) != want_e.get(kk)][:3]
                     bad("gel-edges-not-restored", "%s: differing %s: loaded %s expected %s" % (ctxs, dk, [got_e.get(x) for x in dk], [want_e.get(x) for x in dk]))
                 if sorted((g.get("nodes") or {}).keys()) != _expected_nodes(src["gel"]):
